@@ -331,7 +331,7 @@ class Type4Tag(nfc.tag.Tag):
                     part = self._read_binary(offset, nlen - len(data))
                     if len(part) == 0:
                         return None  # no progress, give up
-                    data += part
+                    data += part[:nlen-len(data)]
 
             except Type4TagCommandError:
                 return None
